@@ -228,7 +228,9 @@ func scenarioOverride(c *vrun.Ctx) {
 	}
 	caseNo := 0
 	for _, pr := range props {
-		events := []string{"cli0", "api0", "api1", "restart"}
+		// cliCur: the command line names the value that is in effect anyway (the default, the file's
+		// value or what an API update just set): it is still a command-line value and must keep winning
+		events := []string{"cli0", "cliCur", "api0", "api1", "restart"}
 		n := len(events)
 		total := 1
 		for i := 0; i < p.Depth; i++ {
@@ -265,6 +267,10 @@ func scenarioOverride(c *vrun.Ctx) {
 					switch ev {
 					case "cli0":
 						v := decodeAs(cfg, pr.path, pr.cli[0])
+						lookup(cfg, pr.path).Addr().MethodByName("Overwrite").Call([]reflect.Value{v})
+						cliActive, cliVal = true, exact(v)
+					case "cliCur":
+						v := lookup(cfg, pr.path).Addr().MethodByName("Read").Call(nil)[0]
 						lookup(cfg, pr.path).Addr().MethodByName("Overwrite").Call([]reflect.Value{v})
 						cliActive, cliVal = true, exact(v)
 					case "api0", "api1":
